@@ -339,6 +339,7 @@ func replayFree(u *Universe, h History, dir string, seed int64, traced, queries 
 	// a block step that met an injected fault lost its tip: the wallet catches up with the next one, so the node mines
 	// on (empty blocks, recorded like any chain action) whenever the follower is idle but not on the node's tip
 	extraBlocks := 0
+	repairChild := map[int]int{} // a repair block mined on top of this block: the branch's leaf has moved
 	idMap := map[int]int{}
 	actual := func(id int) int {
 		if a, ok := idMap[id]; ok {
@@ -373,6 +374,7 @@ func replayFree(u *Universe, h History, dir string, seed int64, traced, queries 
 		}
 		flush()
 		extraBlocks++ // blocks are numbered in creation order: the history's later blocks move up by one
+		repairChild[parent] = next + 1
 		repairs++
 		lastRepair = time.Now()
 		return nil
@@ -416,6 +418,16 @@ func replayFree(u *Universe, h History, dir string, seed int64, traced, queries 
 					idMap[s.B+k] = s.B + k + extraBlocks
 				}
 				c.B, c.P = s.B+extraBlocks, actual(s.P)
+				if c.A == "Extend" {
+					// the new block goes on the node's tip, which may be a repair block mined on the history's tip
+					for {
+						nxt, ok := repairChild[c.P]
+						if !ok {
+							break
+						}
+						c.P = nxt
+					}
+				}
 				// the history chose this content for ITS chain (which coinbase a transaction spends depends on the
 				// block numbers): blocks mined after a repair block stay empty
 				c.Txs = make([][]string, n)
@@ -427,6 +439,16 @@ func replayFree(u *Universe, h History, dir string, seed int64, traced, queries 
 				}
 			case "SwitchTo", "ReorgStep":
 				c.B = actual(s.B)
+				if c.A == "SwitchTo" {
+					// a node switches to the leaf of a branch: a repair block mined on the history's leaf is the leaf now
+					for {
+						nxt, ok := repairChild[c.B]
+						if !ok {
+							break
+						}
+						c.B = nxt
+					}
+				}
 			}
 			s = &c
 		}
